@@ -147,7 +147,7 @@ Section Outer.
       { intros e s' ((A1 & A2 & A3 & A5) & _). rewrite K0, V0 in A5.
         split; [unfold frame; repeat split; congruence|].
         exists []. rewrite app_nil_r. split; auto; congruence. }
-      intros s1 ((A1 & A2 & A3 & A5) & (x' & y & kp & S1 & S2 & S3 & S4 & S5 & S6)).
+      intros s1 ((A1 & A2 & A3 & A5) & (x' & y & kp & S1 & S2 & S3 & S4 & S5 & S6 & _)).
       unfold log_step. rewrite S1.
       assert (Hk2 : knobs (set_knobs_from_x E cf x' s1) = knobs s1).
       { unfold set_knobs_from_x; stsimpl. rewrite A1. eapply wk_idem; eauto. }
